@@ -210,22 +210,40 @@ inline double ellipsoidOverlapMargin(const Vec3& a, const Vec3& b, const Mat33& 
 
 // ------------------------------------------------------------------ triangle / triangle intersection, three-valued
 inline double orient3(const Vec3& a, const Vec3& b, const Vec3& c, const Vec3& d) { return SimTK::dot(a - d, (b - d) % (c - d)); }
-// segment pq against triangle abc: 1 = crosses the interior, 0 = definitely misses, -1 = touching / too close to call
-inline int segTri(const Vec3& p, const Vec3& q, const Vec3& a, const Vec3& b, const Vec3& c, double eps) {
+inline double segSegDist(const Vec3& p1, const Vec3& q1, const Vec3& p2, const Vec3& q2) {
+    Vec3 d1 = q1 - p1, d2 = q2 - p2, r = p1 - p2; double a = d1.normSqr(), e = d2.normSqr(), f = SimTK::dot(d2, r), s, t;
+    auto clamp01 = [](double x) { return x < 0 ? 0.0 : (x > 1 ? 1.0 : x); };
+    if (a <= 0 && e <= 0) return r.norm();
+    if (a <= 0) { s = 0; t = clamp01(f / e); }
+    else { double c = SimTK::dot(d1, r);
+        if (e <= 0) { t = 0; s = clamp01(-c / a); }
+        else { double b = SimTK::dot(d1, d2), den = a * e - b * b; s = den > 0 ? clamp01((b * f - c * e) / den) : 0; t = (b * s + f) / e;
+               if (t < 0) { t = 0; s = clamp01(-c / a); } else if (t > 1) { t = 1; s = clamp01((b - c) / a); } } }
+    return ((p1 + d1 * s) - (p2 + d2 * t)).norm();
+}
+// segment pq against triangle abc: 1 = crosses the interior, 0 = definitely misses, -1 = touching / too close to call.
+// eps is a volume (length^3) tolerance for the orientation predicates, lenTol a length tolerance for the coplanar case.
+inline int segTri(const Vec3& p, const Vec3& q, const Vec3& a, const Vec3& b, const Vec3& c, double eps, double lenTol) {
     double s1 = orient3(a, b, c, p), s2 = orient3(a, b, c, q);
     if ((s1 > eps && s2 > eps) || (s1 < -eps && s2 < -eps)) return 0;
+    if (std::abs(s1) <= eps && std::abs(s2) <= eps) {
+        // segment in the plane of the triangle: decide by in-plane distance
+        Vec3 cp; double d = std::min(std::sqrt(closestPtTriangle(p, a, b, c, cp)), std::sqrt(closestPtTriangle(q, a, b, c, cp)));
+        d = std::min(d, std::min(segSegDist(p, q, a, b), std::min(segSegDist(p, q, b, c), segSegDist(p, q, c, a))));
+        return d > lenTol ? 0 : -1;
+    }
     double o1 = orient3(p, q, a, b), o2 = orient3(p, q, b, c), o3 = orient3(p, q, c, a);
     if ((o1 > eps && o2 > eps && o3 > eps) || (o1 < -eps && o2 < -eps && o3 < -eps)) return (std::abs(s1) <= eps || std::abs(s2) <= eps) ? -1 : 1;
     double mx = std::max(o1, std::max(o2, o3)), mn = std::min(o1, std::min(o2, o3));
     if (mx > eps && mn < -eps) return 0;
     return -1;
 }
-// 1 = the triangles cross, 0 = disjoint, -1 = touching / coplanar / too close to call.  eps is a volume (length^3) tolerance.
-inline int triTri(const Vec3 t1[3], const Vec3 t2[3], double eps) {
+// 1 = the triangles cross, 0 = disjoint, -1 = touching / coplanar-overlapping / too close to call.
+inline int triTri(const Vec3 t1[3], const Vec3 t2[3], double eps, double lenTol) {
     bool uncertain = false;
     for (int k = 0; k < 3; ++k) {
-        int r = segTri(t1[k], t1[(k + 1) % 3], t2[0], t2[1], t2[2], eps); if (r == 1) return 1; if (r < 0) uncertain = true;
-        r = segTri(t2[k], t2[(k + 1) % 3], t1[0], t1[1], t1[2], eps); if (r == 1) return 1; if (r < 0) uncertain = true;
+        int r = segTri(t1[k], t1[(k + 1) % 3], t2[0], t2[1], t2[2], eps, lenTol); if (r == 1) return 1; if (r < 0) uncertain = true;
+        r = segTri(t2[k], t2[(k + 1) % 3], t1[0], t1[1], t1[2], eps, lenTol); if (r == 1) return 1; if (r < 0) uncertain = true;
     }
     return uncertain ? -1 : 0;
 }
